@@ -11,7 +11,12 @@ let of_table t = of_list of_bucket t
 let key_of p = string_of_n p.paddr ^ ":" ^ string_of_n p.pport
 let keyset j = let h = Stdlib.Hashtbl.create 16 in
   SL.iter (fun k -> Stdlib.Hashtbl.replace h (jstr k) ()) (jlist j); h
-let probe_of req = let d = keyset (jfield req "dead") in fun p -> not (Stdlib.Hashtbl.mem d (key_of p))
+(* probe outcome per contact: "dead" = timeout / error answer, "sendfail" = the local send raised, otherwise it answers *)
+let probe_of req =
+  let d = keyset (jfield req "dead") in
+  let f = match jfield_opt req "sendfail" with Some j -> keyset j | None -> Stdlib.Hashtbl.create 1 in
+  fun p -> if Stdlib.Hashtbl.mem f (key_of p) then PLocalFail
+           else if Stdlib.Hashtbl.mem d (key_of p) then PDead else PReply
 let jenv req =
   let g = keyset (jfield req "good") and s = keyset (jfield req "stale") and f = keyset (jfield req "fresh") in
   { good = (fun p -> Stdlib.Hashtbl.mem g (key_of p));
@@ -20,6 +25,7 @@ let jenv req =
     probe = probe_of req }
 let of_res r = match r with
   | Ret true -> JStr "True" | Ret false -> JStr "False" | ErrIndex -> JStr "IndexError" | ErrFuel -> JStr "OutOfFuel"
+  | ErrProbe -> JStr "OSError"
 let out_fields o = match o with
   | OAdd (r, pr) -> [("ret", of_res r); ("probed", of_list of_peer pr)]
   | ORemove ok -> [("ret", JStr (if ok then "None" else "IndexError")); ("probed", JArr [])]
@@ -32,7 +38,7 @@ let do_step o =
 (* the model's own reading of the peer manager for every contact of the table *)
 let facts () =
   let cs = contacts !st.s_tab in
-  let e = env_of_pm !st.s_pm !st.s_now (fun _ -> true) in
+  let e = env_of_pm !st.s_pm !st.s_now (fun _ -> PReply) in
   let sel f = JArr (SL.map (fun p -> JStr (key_of p)) (SL.filter f cs)) in
   [("good", sel (fun p -> e.good p)); ("stale", sel (fun p -> e.lrs p = Stale)); ("fresh", sel (fun p -> e.lrs p = Fresh))]
 let do_sys o =
@@ -56,6 +62,7 @@ let () = serve (fun fn req ->
   | "failure" -> do_sys (SFailure (jkey req))
   | "requested" -> do_sys (SRequested (jkey req))
   | "sadd" -> do_sys (SAdd (jpeer req, probe_of req))
+  | "sadd_real" -> do_sys (SAddReal (jpeer req, probe_of req, jn (jfield req "wait")))
   | "pm_query" ->
       let k = jkey req in
       JObj [("good", of_tri (triple_is_good !st.s_pm !st.s_now k));
